@@ -142,7 +142,7 @@ Proof. exact same_origin_proof. Qed.
 
 (** ---- the repaired defects: the statement fails on the model of the code as it was ---- *)
 
-(** before 9dff57d (resolve_prime did not keep the requested URI; former known class acao_path_rewrite):
+(** before 8f77d7d (resolve_prime did not keep the requested URI; former known class acao_path_rewrite):
     a refused request got 403 WITH access-control-allow-origin *)
 Theorem acao_path_rewrite_v0_refuted :
   exists (cfg : ccfg) (r : request),
@@ -168,7 +168,7 @@ Proof.
   apply marker_app_external. intros p sp [H|[H|[]]]; inversion H; subst; reflexivity.
 Qed.
 
-(** before 43f721b (the rule was looked up with the path as spelled only): a percent-encoded spelling of a
+(** before 673b91a (the rule was looked up with the path as spelled only): a percent-encoded spelling of a
     file's path was judged by another rule and the file was served to an origin its own rule refuses *)
 Theorem raw_path_v0_refuted :
   exists (cfg : ccfg) (st : site) (r : request) (rel : bytes),
@@ -181,7 +181,7 @@ Proof.
   split; [vm_compute; reflexivity|]. exact raw_path_v0_witness.
 Qed.
 
-(** before 8cf6420 (the refusal had the server cache preference Full): with a status filter that caches 403
+(** before d00feae (the refusal had the server cache preference Full): with a status filter that caches 403
     the refusal was stored under the request's own path and served to a request without Origin *)
 Theorem denied_cached_v0_refuted :
   exists (cfg : ccfg) (bad plain : request),
